@@ -57,7 +57,8 @@ class C16:
     }
     RULE = ('run i has primary spelling GRID[i % 539] (7 letters x 7 alterations x 11 octaves, so every 539 consecutive runs '
             'visit the whole grid); a seeded history of 8..30 operations on shared codec objects and a pool of pitch objects: '
-            'import, export, export again later, re-import of an export, direct construction + export, American export, '
+            'import, export, export again later, re-import of an export, direct construction + export, edits through the public setters '
+            '(and rejected edits), American export, '
             'attribute reads, to_transposed, plus (fault-injecting configuration) invalid spellings/arguments and exports '
             'interrupted at a seeded line event. Non-trivial: the primary object was exported at least twice with other '
             'operations in between. Distinct: digest of (primary spelling, operation-kind sequence).')
@@ -69,7 +70,7 @@ class C16:
                    'objects returned by to_transposed are modelled by the same call on a fresh equal object (reference path)',
                    'seeded search samples histories; only the 539-spelling grid is covered exhaustively']
     PROBES = ['export_repeated', 'reimport', 'bad_call_then_valid', 'interrupt_delivered', 'direct_construct_export', 'triple_alteration',
-              'octave_extreme']
+              'octave_extreme', 'edited_through_setters']
 
     # ---------------------------------------------------------------- plan
     def gen_plan(self, seed: int, index: int, tier: str) -> dict:
@@ -85,7 +86,7 @@ class C16:
             out = []
             for _ in range(n):
                 kind = seeds.weighted(rng, [('imp', 4), ('new', 3), ('exp', 5), ('exp_am', 2), ('read', 3), ('tr', 2), ('reimp', 2),
-                                            ('exp0', 2)])
+                                            ('exp0', 2), ('set', 2.5)])
                 if kind == 'imp':
                     out.append({'op': 'imp', 's': spell(*rng.choice(GRID))})
                 elif kind == 'new':
@@ -103,8 +104,23 @@ class C16:
                     out.append({'op': 'tr', 'o': rng.randrange(64), 'iv': rng.choice(INTERVALS), 'dir': rng.choice(['up', 'down'])})
                 elif kind == 'reimp':
                     out.append({'op': 'reimp', 'o': rng.randrange(64)})
+                elif kind == 'set':
+                    # the pitch object is mutable through its public setters: edit it to another grid value
+                    l, a, o = rng.choice(GRID)
+                    what = rng.choice(['name', 'octave', 'both'])
+                    out.append({'op': 'set', 'o': rng.choice([0, rng.randrange(64)]), 'what': what, 'name': model_name(l, a), 'oct': o})
+                    if rng.random() < 0.6:
+                        out.append({'op': 'exp', 'o': out[-1]['o']})
                 if faulty and frng.random() < 0.3:
-                    fk = seeds.weighted(frng, [('bad_imp', 4), ('bad_new', 2), ('int_exp', 4)])
+                    fk = seeds.weighted(frng, [('bad_imp', 4), ('bad_new', 2), ('int_exp', 4), ('bad_set', 3)])
+                    if fk == 'bad_set':
+                        l, a, o = frng.choice(GRID)
+                        bad = frng.choice([('name', l.upper() + '++++'), ('name', l.upper() + '----'), ('name', 'H'), ('name', 'X+'), ('name', ''),
+                                           ('octave', 'x'), ('octave', 4.5), ('octave', None), ('name', l.upper() + '+-+-+')])
+                        out.append({'op': 'bad_set', 'o': frng.choice([0, frng.randrange(64)]), 'attr': bad[0], 'value': bad[1]})
+                        if frng.random() < 0.7:
+                            out.append({'op': 'exp', 'o': out[-1]['o']})
+                        continue
                     if fk == 'bad_imp':
                         out.append({'op': 'bad_imp', 's': frng.choice(BAD_SPELLINGS)})
                     elif fk == 'bad_new':
@@ -173,7 +189,7 @@ class C16:
         for n, op in enumerate(plan['ops']):
             kind = op['op']
             touched = None
-            if kind in ('exp', 'exp_am', 'read', 'tr', 'reimp', 'int_exp'):
+            if kind in ('exp', 'exp_am', 'read', 'tr', 'reimp', 'int_exp', 'set', 'bad_set'):
                 if not pool:
                     continue
                 touched = op['o'] % len(pool)
@@ -304,6 +320,48 @@ class C16:
                     pool.append(o2)
                     model.append((o2.name, o2.octave))
                 after_fault = False
+            elif kind == 'set':
+                o = pool[touched]
+                want = [op['name'] if op['what'] in ('name', 'both') else model[touched][0], op['oct'] if op['what'] in ('octave', 'both') else model[touched][1]]
+                try:
+                    if op['what'] in ('name', 'both'):
+                        o.name = op['name']
+                    if op['what'] in ('octave', 'both'):
+                        o.octave = op['oct']
+                    got = state(o)
+                except Exception as e:
+                    got = 'raised ' + type(e).__name__
+                seq = log.emit('client', 'set', [touched, op['what'], op['name'], op['oct']], got)
+                bump(probes, 'edited_through_setters')
+                if got != want:
+                    add_v('setter-wrong', 'setter-wrong', want, got, pool_index=touched)
+                if isinstance(got, list):
+                    model[touched] = (got[0], got[1])
+                # every alias of this object in the pool is the same object: keep their models in step
+                for j, other in enumerate(pool):
+                    if other is o:
+                        model[j] = model[touched]
+                        first_export.pop(j, None)
+                        exported_at.pop(j, None)
+            elif kind == 'bad_set':
+                o = pool[touched]
+                try:
+                    setattr(o, op['attr'], op['value'])
+                    got = 'accepted'
+                except Exception as e:
+                    got = 'raised ' + type(e).__name__
+                seq = log.emit('fault', 'bad_set', [touched, op['attr'], op['value']], got)
+                bump(faults, 'rejected_edit')
+                after_fault = True
+                if got == 'accepted':
+                    # not C16's business whether this value is rejected; follow the object
+                    st_now = state(o)
+                    for j, other in enumerate(pool):
+                        if other is o and st_now[0] != '<unreadable>':
+                            model[j] = (st_now[0], st_now[1])
+                            first_export.pop(j, None)
+                            exported_at.pop(j, None)
+                # a rejected edit must leave the object as it was: checked by the pool invariant below and by the next export
             elif kind == 'bad_imp':
                 got = self._call(lambda: state(importer.import_pitch(op['s'])))
                 seq = log.emit('fault', 'bad_imp', op['s'], got)
